@@ -16,9 +16,18 @@ Replay(h, i, d, acc) ==
            inter == (C!Reads(h[i]) \cap pre) \ C!Harmless
        IN Replay(h, i + 1, pre \cup C!Writes(h[i]), Append(acc, inter))
 
+\* the model in which the options of a call stay in force: only to NAME an observed difference
+CK == INSTANCE Context WITH Dev <- Known \cup {"TimeLimitKept", "CallOptionsKept"}
+RECURSIVE ReplayOK(_, _, _, _)
+ReplayOK(h, i, d, acc) ==
+  IF i > Len(h) THEN acc
+  ELSE LET pre == d \ CK!Resets(h[i])
+       IN ReplayOK(h, i + 1, pre \cup CK!Writes(h[i]), Append(acc, (CK!Reads(h[i]) \cap pre \cap CK!OptCells)))
+
 VARIABLE n
 TInit == n = 1 /\ dirty = {} /\ hist = <<>> /\ clean = <<>>
 TNext == n <= Len(Hists) /\ n' = n + 1 /\ UNCHANGED <<dirty, hist, clean>>
 TSpec == TInit /\ [][TNext]_<<n, dirty, hist, clean>>
-Emit == (n <= Len(Hists)) => PrintT(<<"CASE", ToJson([i |-> n, hist |-> Hists[n], interferes |-> Replay(Hists[n], 1, {}, <<>>)])>>)
+Emit == (n <= Len(Hists)) => PrintT(<<"CASE", ToJson([i |-> n, hist |-> Hists[n], interferes |-> Replay(Hists[n], 1, {}, <<>>),
+                                                            optkept |-> ReplayOK(Hists[n], 1, {}, <<>>)])>>)
 =============================================================================
